@@ -85,4 +85,102 @@ example : containersV1 [WContainer.mk (a!"b") []
   · exact ⟨⟨by decide, by decide⟩, trivial⟩
   · exact ⟨⟨by decide, by decide⟩, by simp, by decide⟩
 
+open Lemmas.WriterChunks Lemmas.WriterLines in
+/-- **C13_roundtrip** — the whole-document round trip, CIF 1.1.  For every walk order `cif` that `cif_write` accepts in CIF 1.1
+    mode (`writeCif 1 cif = .ok out`; lists, tables and strings that CIF 1.1 cannot present are refused, never altered:
+    `C13_refusal_codes_doc`, `C13_never_silently_alters`), under the hypotheses of `C02_roundtrip_doc` read for the CIF 1.1
+    dialect (`cifR .cif1`: the strings consist of CIF 1.1 characters), the integrated parser model in CIF 1.1 mode — with line
+    unfolding and prefix removal switched on, which is how a folded / prefixed CIF 1.1 text field must be read — under EVERY
+    callback policy returns CIF_OK, reports nothing, and leaves the blocks, frames, loops, packets and values written
+    (`backBlock`).  Same composition as C02_roundtrip_doc (the chunk lemmas, the scanner glue and gJ's C01_structure are
+    stated for both dialects). -/
+theorem C13_roundtrip (o : Model.Parser.Opts) (pol : Model.Lexer.Policy) (cif : WCif) (out : Str)
+    (hdia : o.dia = .cif1) (hun : o.unfold = true) (hpr : o.prem = true)
+    (hstore : o.store = true) (hmfd : o.maxFrameDepth ≠ 0) (hutf : o.notUtf8 = false)
+    (hL : containersL cif) (hR : cifR o.dia o.normKey cif) (hN : blocksN o cif [])
+    (hw : writeCif 1 cif = .ok out) :
+    ∃ back, Model.Parser.parse o pol [] out = { rc := 0, log := [], cif := back } ∧ All2 backBlock cif back :=
+  roundtrip_doc 1 o pol cif out (by rw [hdia]; rfl) hun hpr hstore hmfd hutf hL hR hN hw
+
+namespace C13Doc
+/-- CIF 1.1 parse with line unfolding and prefix removal on -/
+def opts11 : Model.Parser.Opts :=
+  { dia := .cif1, maxFrameDepth := 1, unfold := true, prem := true, notUtf8 := false, store := true, norm := C01parse.lower, normKey := id }
+/-- a block with a save frame, scalars (one needs quotes, one becomes a text field) and a loop with an unquoted number -/
+def sample : WCif := [WContainer.mk (a!"b")
+    [WContainer.mk (a!"f") [] [{ category := some [], header := [a!"_z"], packets := [[(a!"_z", V.chr false (a!"v"))]] }]]
+    [{ category := some [], header := [a!"_x"],
+       packets := [[(a!"_x", V.chr true (a!"a b")), (a!"_t", V.chr true (a!"p\nq")), (a!"_u", V.unk)]] },
+     { category := none, header := [a!"_y"], packets := [[(a!"_y", V.numb false (a!"12") false [] none 0)]] }]]
+end C13Doc
+
+open Lemmas.WriterChunks Lemmas.LexGlue Lemmas.WriterLines in
+/-- non-vacuity of `C13_roundtrip`: its hypotheses hold of `C13Doc.sample`, the CIF 1.1 writer accepts it, and therefore under
+    every callback policy it comes back -/
+theorem C13_roundtrip_sample (pol : Model.Lexer.Policy) :
+    ∃ out back, writeCif 1 C13Doc.sample = .ok out
+      ∧ Model.Parser.parse C13Doc.opts11 pol [] out = { rc := 0, log := [], cif := back } ∧ All2 backBlock C13Doc.sample back := by
+  have hL : containersL C13Doc.sample := by
+    simp [C13Doc.sample, containersL, containerL, codeL, loopL, headerL, itemsL, valueL, elemsL, entriesL, nameL, strOk, numbOk,
+      countChar32, LINE]
+    intro a b h
+    rcases h with ⟨rfl, rfl⟩ | ⟨rfl, rfl⟩ | ⟨rfl, rfl⟩ <;> simp [valueL, strOk]
+  have hR : cifR .cif1 id C13Doc.sample := by
+    intro k hk
+    simp only [C13Doc.sample, List.mem_singleton] at hk
+    subst hk
+    have hcode : ∀ c : Str, (Tk.data c).ok .cif1 = true → codeR .cif1 c := fun _ h => h
+    have hname : ∀ n : Str, (Tk.name n).ok .cif1 = true → n.length ≤ LINE → nameR .cif1 n := fun _ h h' => ⟨h, h'⟩
+    refine ⟨_, _, _, rfl, hcode _ (by decide), ?_, ?_⟩
+    · intro f hf
+      simp only [List.mem_singleton] at hf
+      subst hf
+      refine ⟨_, _, rfl, hcode _ (by decide), ?_⟩
+      intro l hl
+      simp only [List.mem_singleton] at hl
+      subst hl
+      unfold loopR
+      refine ⟨fun _ => ⟨_, rfl⟩, fun h => absurd h (by decide), ?_⟩
+      intro p hp nv hnv
+      simp only [List.mem_singleton] at hp
+      subst hp
+      simp only [List.mem_singleton] at hnv
+      subst hnv
+      exact ⟨by simp only [valueR]; decide, fun _ => hname _ (by decide) (by decide)⟩
+    · intro l hl
+      simp only [List.mem_cons, List.mem_singleton, List.not_mem_nil, or_false] at hl
+      rcases hl with rfl | rfl
+      · unfold loopR
+        refine ⟨fun _ => ⟨_, rfl⟩, fun h => absurd h (by decide), ?_⟩
+        intro p hp nv hnv
+        simp only [List.mem_singleton] at hp
+        subst hp
+        simp only [List.mem_cons, List.not_mem_nil, or_false] at hnv
+        rcases hnv with rfl | rfl | rfl
+        · exact ⟨by simp only [valueR]; decide, fun _ => hname _ (by decide) (by decide)⟩
+        · exact ⟨by simp only [valueR]; decide, fun _ => hname _ (by decide) (by decide)⟩
+        · exact ⟨by simp only [valueR], fun _ => hname _ (by decide) (by decide)⟩
+      · unfold loopR
+        refine ⟨fun h => absurd h (by decide), fun _ n hn => ?_, ?_⟩
+        · simp only [List.mem_singleton] at hn
+          subst hn
+          exact hname _ (by decide) (by decide)
+        · intro p hp nv hnv
+          simp only [List.mem_singleton] at hp
+          subst hp
+          simp only [List.mem_singleton] at hnv
+          subst hnv
+          refine ⟨?_, fun h => absurd h (by decide)⟩
+          simp only [valueR, numR, numbOk, strOk]
+          decide
+  have hN : blocksN C13Doc.opts11 C13Doc.sample [] := by
+    simp [C13Doc.sample, blocksN, framesN, loopsN, scalarOnce, scalarsN, seenScalars, isScalars]
+    decide
+  have hok : (match writeCif 1 C13Doc.sample with | .ok _ => true | .error _ => false) = true := by decide +kernel
+  cases h : writeCif 1 C13Doc.sample with
+  | error e => rw [h] at hok; cases hok
+  | ok out =>
+    obtain ⟨back, hp, hb⟩ := C13_roundtrip C13Doc.opts11 pol C13Doc.sample out rfl rfl rfl rfl (by decide) rfl hL hR hN h
+    exact ⟨out, back, rfl, hp, hb⟩
+
 end CifModel
